@@ -17,6 +17,8 @@ type Opts struct {
 	// Runtime restricts the envelope to what the runtime driver can drive (no unions, streaming, multipart, files).
 	Runtime  bool
 	Thorough bool
+	// Files allows file servers even in Runtime mode (they can be mounted, not driven).
+	Files bool
 	// Avoid lists feature combinations that are open known findings of C01 (DESIGN §12); never set for C01 itself.
 	Avoid map[string]bool
 }
